@@ -162,7 +162,19 @@ impl Storage {
             "Recovering from wal checkpoint {}",
             earliest_uncommited_wal_id
         );
-        let wal_files = writer.list(wal_dir).unwrap();
+        let mut wal_files = writer.list(wal_dir).unwrap();
+        // A crash during a WAL write leaves a temporary file behind. It was never acknowledged
+        // and must not be mistaken for a segment.
+        wal_files.retain(|path| {
+            let is_segment = path.extension().map(|ext| ext == "wal").unwrap_or(false);
+            if !is_segment {
+                log::warn!("Ignoring leftover file {} in wal directory", path.display());
+                if !readonly {
+                    writer.delete(path).unwrap();
+                }
+            }
+            is_segment
+        });
         let num_wal_files = wal_files.len();
         log::info!("Found {} wal segments", wal_files.len());
 
